@@ -145,6 +145,7 @@ pub fn generated_v(srcdir: &str, b: &Builder, w: &Wrapper, r: &Routing, features
     .unwrap();
     writeln!(o, "Definition response_reads : list string := {}.", strs(&r.response_reads)).unwrap();
     writeln!(o, "Definition response_calls : list string := {}.", strs(&r.response_calls)).unwrap();
+    o.push_str(&r.std.coq_section(&r.param_types));
 
     writeln!(o, "\n(* ---------- constants ---------- *)").unwrap();
     let mut count: BTreeMap<&str, usize> = BTreeMap::new();
@@ -172,6 +173,7 @@ pub fn generated_v(srcdir: &str, b: &Builder, w: &Wrapper, r: &Routing, features
     writeln!(o, "(* first string-literal argument of .add_attribute(..) / attr(..) *)").unwrap();
     writeln!(o, "Definition attribute_key_literals : list (string * bytes) := {}.", lit(&sc.attribute_keys)).unwrap();
 
+    o.push_str(&crate::layout::coq_section(&sc.layout));
     writeln!(o, "\n(* ---------- advisory: possible sources of nondeterminism in non-test code (file, what, line) ---------- *)").unwrap();
     writeln!(
         o,
@@ -269,6 +271,7 @@ pub fn report_json(srcdir: &str, changed: bool, b: &Builder, w: &Wrapper, r: &Ro
     )
     .unwrap();
     writeln!(o, " \"customize_response\": {{\"reads\": {}, \"calls\": {}}},", jlist(&r.response_reads, |p| json_str(p)), jlist(&r.response_calls, |p| json_str(p))).unwrap();
+    writeln!(o, "{}", r.std.json_section()).unwrap();
     writeln!(
         o,
         " \"constants\": {},",
@@ -284,6 +287,7 @@ pub fn report_json(srcdir: &str, changed: bool, b: &Builder, w: &Wrapper, r: &Ro
         ))
     )
     .unwrap();
+    writeln!(o, "{}", crate::layout::json_section(&sc.layout)).unwrap();
     writeln!(o, " \"event_type_literals\": {},", jlist(&sc.event_types, |(f, s)| format!("[{}, {}]", json_str(f), json_str(s)))).unwrap();
     writeln!(o, " \"attribute_key_literals\": {},", jlist(&sc.attribute_keys, |(f, s)| format!("[{}, {}]", json_str(f), json_str(s)))).unwrap();
     writeln!(
